@@ -179,6 +179,12 @@ func (r *recorded) replayResponse(body *wire.ScriptedBody, withTrailers bool, ex
 // replayRequest serves the recorded request (body as scripted) with a fresh
 // handler running the given program; returns the handler log and the response.
 func (r *recorded) replayRequest(body *wire.ScriptedBody, prog *svc.Program, hopts ...connect.HandlerOption) (*svc.HLog, *wire.Result) {
+	return r.replayRequestCL(body, prog, false, hopts...)
+}
+
+// replayRequestCL is replayRequest; with declare the request also announces its
+// (true) body length in Content-Length, as a client that buffered it would.
+func (r *recorded) replayRequestCL(body *wire.ScriptedBody, prog *svc.Program, declare bool, hopts ...connect.HandlerOption) (*svc.HLog, *wire.Result) {
 	reg := svc.NewRegistry()
 	if !r.Gzip {
 		hopts = append(hopts, connect.WithCompressMinBytes(1<<30))
@@ -189,6 +195,10 @@ func (r *recorded) replayRequest(body *wire.ScriptedBody, prog *svc.Program, hop
 	hdr.Set(wire.CallHeader, call.ID)
 	rec := wire.NewRecorder()
 	req := wire.ServerRequest(context.Background(), "POST", r.Kind.Path(), hdr, body, 2)
+	if declare {
+		req.ContentLength = int64(len(body.Data))
+		req.Header.Set("Content-Length", fmt.Sprint(len(body.Data)))
+	}
 	hs[r.Kind].ServeHTTP(rec, req)
 	return call.Log, rec.Finish()
 }
